@@ -14,7 +14,8 @@ import (
 type udpModel struct {
 	connT     string // association type: struct embedding net.PacketConn with an *EncryptionKey field
 	keyField  string // its *shadowsocks.EncryptionKey field
-	dlField   string // its time.Time field (current read deadline)
+	dlField   string // the time.Time field holding the current read deadline ...
+	dlT       string // ... and the struct type that declares it: connT, or a small deadline type held by value in connT
 	metField  string // its UDPConnMetrics field
 	connField string // the embedded/held net.PacketConn field
 	mapT      string // table type: struct with a map[string]*connT field
@@ -67,7 +68,7 @@ func discoverUDP(c *Ctx) *udpModel {
 			continue
 		}
 		short := "service." + name
-		var key, dl, met, conn string
+		var key, dl, dlT, met, conn string
 		for i := 0; i < st.NumFields(); i++ {
 			f := st.Field(i)
 			ts := eng.Short(f.Type().String())
@@ -75,7 +76,21 @@ func discoverUDP(c *Ctx) *udpModel {
 			case ts == "*sdk/shadowsocks.EncryptionKey":
 				key = f.Name()
 			case ts == "time.Time":
-				dl = f.Name()
+				dl, dlT = f.Name(), short
+			default:
+				// a small struct held by value whose (only) time.Time field is the deadline (a monotonicDeadline type)
+				if inner, ok := f.Type().Underlying().(*types.Struct); ok && strings.HasPrefix(eng.TypeName(f.Type()), "service.") {
+					nt, tf := 0, ""
+					for k := 0; k < inner.NumFields(); k++ {
+						if eng.Short(inner.Field(k).Type().String()) == "time.Time" {
+							nt++
+							tf = inner.Field(k).Name()
+						}
+					}
+					if nt == 1 && dl == "" {
+						dl, dlT = tf, eng.TypeName(f.Type())
+					}
+				}
 			case ts == "service.UDPConnMetrics":
 				met = f.Name()
 			case ts == "net.PacketConn":
@@ -84,6 +99,7 @@ func discoverUDP(c *Ctx) *udpModel {
 		}
 		if key != "" && conn != "" && dl != "" {
 			m.connT, m.keyField, m.dlField, m.metField, m.connField = short, key, dl, met, conn
+			m.dlT = dlT
 		}
 	}
 	if m.connT == "" {
